@@ -203,7 +203,7 @@ def check_compact(run, items, label):
     from . import core
     reqs = [q for q, _ in items]
     canon = lambda q, a: ("ok " + compactgen.fmt(sorted(compactgen.parse_list(a)))) if a.startswith("ok ") else core.default_canon(q, a)
-    impl, model = core.both(run, reqs, label, reorder=False, timeout=3600, canon=canon)
+    impl, model = core.both(run, reqs, label, reorder=False, timeout=3600, canon=canon, mem_bytes=32 << 30)
     # the same calls again in one process, each directly after a REJECTED bulk call built from another item's list (an id that does not
     # decode placed two thirds into it): what a large rejected call leaves behind (scratch buffers kept between calls) must not leak
     if len(reqs) >= 2 and all(not d_ for d_ in run.corr_disagreements[-1:] if d_.get("suite") == label):
@@ -267,11 +267,11 @@ def check(run, items, label, profiles=("release",), count_only=False):
     """run the requests through implementation and model, compare the digests with each other and with the expected length / sum / xor"""
     from . import core
     reqs = [q for q, _ in items]
-    impl, model = core.both(run, reqs, label, reorder=False, timeout=3600)
+    impl, model = core.both(run, reqs, label, reorder=False, timeout=3600, mem_bytes=32 << 30)
     for prof in profiles:
         if prof == "release":
             continue
-        other = core.impl_only(run, reqs, profile=prof, timeout=3600)
+        other = core.run_stream(core.harness(run, prof), reqs, timeout=3600, isolate=True, mem_bytes=32 << 30)
         run.correspond(reqs, other, model, None, label + f" [{prof} build]")
     for (q, exp), a in zip(items, impl):
         run.evaluations += 1
